@@ -196,9 +196,16 @@ let () =
           (Printf.sprintf "%s up=%d a=%s pa=%s pn=%s" (show_acts ~callbacks:false ~req:(Some s'.s_lastreq) acts) (if s'.s_open then 1 else 0) (show_addr s'.s_addr) (show_addr s'.s_cfg.ic_assigned) (if int_of_n s'.s_fsm = 0 then "-" else show_addr s'.s_peer.pp_addr) :: acc, s'))
           ([first], s0) evs in
       print_endline (String.concat " | " (List.rev outs))
-    | "s6" :: mac :: evs ->
-      (* IPv6CP inside a PPPoE session: <bng mac> then events q<id>.<wire> | e<id> | k | n<wire> | j<wire> | R *)
-      let m = iid_from_mac (unhex mac) in
+    | (("s6" | "l6") as k6) :: mac :: evs ->
+      (* IPv6CP inside a PPPoE session: <bng mac> then events q<id>.<wire> | e<id> | k | n<wire> | j<wire> | R
+         l6: inside an LNS session: no identifier is installed, the random default of NewIPv6CP stays; it is
+         taken from the implementation's first line (lid=) *)
+      let m = if k6 = "s6" then iid_from_mac (unhex mac) else begin
+          let impl = if !idx < Array.length impl_arr then impl_arr.(!idx) else "" in
+          let first = match String.split_on_char '|' impl with x :: _ -> x | [] -> "" in
+          List.fold_left (fun acc tok ->
+            if String.length tok = 20 && String.sub tok 0 4 = "lid=" then unhex (String.sub tok 4 16) else acc)
+            (List.init 8 (fun _ -> N0)) (tokens first) end in
       let show s acts = Printf.sprintf "%s up=%d lid=%s"
           (let l = List.filter_map (function
              | Scr -> Some ("scr:" ^ show_opts s.vs_last)
@@ -226,6 +233,58 @@ let () =
           if !ended then ("ended" :: acc, s) else begin
             (if ev.[0] = 'R' || ev.[0] = 'D' then ended := true);
             let (s', acts) = v6sess_step s e in (show s' acts :: acc, s') end) ([show s1 a1], s1) evs in
+      print_endline (String.concat " | " (List.rev outs))
+    | "sl" :: start :: evs ->
+      (* LCP inside a PPPoE session: start = "fresh" (initPPP + up; the random magic is what the implementation's
+         first Configure-Request announces) | "restore:<magic hex8>" (installInMemoryState) *)
+      let impl = if !idx < Array.length impl_arr then impl_arr.(!idx) else "" in
+      let restored = String.length start > 8 && String.sub start 0 8 = "restore:" in
+      let announced =
+        (* 5.<8 hex> inside the first scr: token of the implementation's first segment *)
+        let first = match String.split_on_char '|' impl with x :: _ -> x | [] -> "" in
+        List.fold_left (fun acc tok ->
+          if String.length tok > 4 && String.sub tok 0 4 = "scr:" then
+            List.fold_left (fun acc p -> if String.length p = 10 && String.sub p 0 2 = "5." then
+                                Some (String.sub p 2 8) else acc) acc
+              (String.split_on_char ',' (String.sub tok 4 (String.length tok - 4)))
+          else acc) None (tokens first) in
+      let n_of_hex8 h = n_of_decimal (string_of_int (int_of_string ("0x" ^ h))) in
+      let s0, a0 =
+        if restored then
+          (* without a checkpointed magic (0) the random one of NewLCP stays: taken from the implementation *)
+          let first = match String.split_on_char '|' impl with x :: _ -> x | [] -> "" in
+          let rnd = List.fold_left (fun acc tok ->
+              if String.length tok = 11 && String.sub tok 0 3 = "lm=" then n_of_hex8 (String.sub tok 3 8) else acc)
+              N0 (tokens first) in
+          (lsess_restored rnd (n_of_hex8 (String.sub start 8 8)), [])
+        else lsess_step fl (lsess0 (match announced with Some h -> n_of_hex8 h | None -> N0)) SLStart in
+      let show (s : lsess) acts =
+        let l = List.filter_map (function
+          | Scr -> Some ("scr:" ^ show_opts s.ls_last)
+          | Sca (id, os) -> Some (Printf.sprintf "sca:%d:%s" (int_of_n id) (show_opts os))
+          | Scn (id, os) -> Some (Printf.sprintf "scn:%d:%s" (int_of_n id) (show_opts ~sugg:true os))
+          | Scj (id, os) -> Some (Printf.sprintf "scj:%d:%s" (int_of_n id) (show_opts os))
+          | Sta id -> Some (Printf.sprintf "sta:%d" (int_of_n id))
+          | _ -> None) acts in
+        Printf.sprintf "%s up=%d lm=%s" (if l = [] then "-" else String.concat " " l)
+          (if s.ls_open then 1 else 0) (hexs (put32 s.ls_obj.lo_magic)) in
+      let ended = ref false in
+      let (outs, _) = List.fold_left (fun (acc, s) ev ->
+          if !ended then ("ended" :: acc, s) else begin
+          let tl = String.sub ev 1 (String.length ev - 1) in
+          let e = match ev.[0] with
+            | 'q' -> let i = String.index ev '.' in
+              SLReq (n_of_int (int_of_string (String.sub ev 1 (i - 1))),
+                     unhex (String.sub ev (i + 1) (String.length ev - i - 1)))
+            | 'e' -> SLEcho (n_of_int (int_of_string tl))
+            | 'k' -> SLAck
+            | 'n' -> SLNak (unhex tl)
+            | 'j' -> SLRej (unhex tl)
+            | _ -> failwith "ev" in
+          let (s', acts) = lsess_step fl s e in
+          (* a restored session is in the Open phase: LCP leaving Opened ends it (e9950ea) *)
+          if restored && List.mem Tld acts then ended := true;
+          (show s' acts :: acc, s') end) ([show s0 a0], s0) evs in
       print_endline (String.concat " | " (List.rev outs))
     | _ -> print_endline "badline"
     with e -> print_endline ("modelerror " ^ Printexc.to_string e)) lines
